@@ -144,6 +144,7 @@ def parse_loop_annot(unknown_marker=None):
         ]
 
     return LoopAnnot(invariant=inv, havoc_ghost=havoc,
+                     mutates={'attribute collected of a Basket'},
                      keep={'date', 'path', 'line'},
                      types={'found_deletion_date': 'bool'})
 
